@@ -4,7 +4,7 @@ import re
 from .core import op_place, op_local, callee_name, last_seg, norm_path, walk_expr
 from .report import RuleResult, Violation
 from .guard import (Obl, dom_atoms, call_atom, has_call, agg_sites, calls_named, named_roots, roots_named, reach,
-                    return_some_sites)
+                    return_some_sites, deep_leaves, deep_has_call)
 from .tag import leaves, strip_casts
 
 GROW = ("push", "resize", "resize_with", "extend", "extend_from_slice", "insert", "append", "extend_from_within", "set_len", "push_within_capacity")
@@ -105,7 +105,7 @@ def matrix_cell_bounds(facts):
                 for (e, truth, src) in dom_atoms(b, i, named_leaf=True):
                     if isinstance(e, tuple) and e[0] == "bin" and truth is True and e[1] in ("Lt", "Gt"):
                         lo, hi = (e[2], e[3]) if e[1] == "Lt" else (e[3], e[2])
-                        if (roots_named(b, lo) & want or strip_casts(lo) == strip_casts(b.expr(t["args"][k], 12, named_leaf=True))) and ("field", "node_capacity") in leaves(hi):
+                        if (roots_named(b, lo) & want or strip_casts(lo) == strip_casts(b.expr(t["args"][k], 12, named_leaf=True))) and ("field", "node_capacity") in deep_leaves(b, hi):
                             ok = True
                 o.check(b, "cell-%s-bounded" % nm, t["line"], ok, "%s < node_capacity dominates the cell read" % nm,
                         "the cell (row, column) is read without `%s < node_capacity` dominating it: for a node whose id is at or past the matrix capacity "
